@@ -3,6 +3,7 @@ package c03
 
 import (
 	"fmt"
+	"math"
 	"os"
 	"path/filepath"
 	"sort"
@@ -124,7 +125,15 @@ func genSchema(t *rapid.T) *schema {
 // valueAt derives the value of a slot from one drawn seed: dyadic rationals k/8, |k| <= 24,
 // so sums of the few contributions of a cell are exact in float64. Histogram buckets are only
 // written when > 0 (memdb.writeCompoundField), so they get k in 1..24.
+//
+// Seeds >= 49 select, for the types whose values are never added (min/max/first/last), a second
+// class of arbitrary finite floats (extremes, denormals, -0, values with a full mantissa): the
+// merge re-encodes every value (XOR compression), which must be lossless for any bit pattern
+// ingestion accepts.
 func valueAt(t field.Type, seed int, slot uint16) float64 {
+	if seed >= 49 && t != field.SumField && t != field.HistogramField {
+		return oddFloats[(seed-49+int(slot))%len(oddFloats)]
+	}
 	k := (seed+int(slot)*7)%49 - 24
 	if t == field.HistogramField {
 		if k < 0 {
@@ -135,6 +144,11 @@ func valueAt(t field.Type, seed int, slot uint16) float64 {
 		}
 	}
 	return float64(k) / 8
+}
+
+var oddFloats = []float64{
+	math.MaxFloat64, -math.MaxFloat64, math.SmallestNonzeroFloat64, -math.SmallestNonzeroFloat64,
+	math.Copysign(0, -1), math.Pi, -math.E, 1 << 53, 1<<53 + 2, 0.1, 1e-300, 123456789.987654321,
 }
 
 // genWindow draws the slot window of one metric in one file. Small bases make the windows of
@@ -206,7 +220,7 @@ func genFileMetric(t *rapid.T, sc *schema, metricID uint32, lbl string) *fileMet
 			if !first && rapid.IntRange(0, 3).Draw(t, lbl+"skip") == 0 {
 				continue // this series has no page for this field
 			}
-			seed := rapid.IntRange(0, 48).Draw(t, lbl+"seed")
+			seed := rapid.IntRange(0, 60).Draw(t, lbl+"seed")
 			var slots []int
 			if width <= 12 {
 				mask := rapid.IntRange(1, 1<<width-1).Draw(t, lbl+"mask")
@@ -457,7 +471,24 @@ func (e *env) compact(force bool) {
 	e.checkAgainstModel(after, "after compaction")
 }
 
-func runCase(t *rapid.T) {
+// caseGen is the generator side of a case.
+type caseGen struct {
+	group    string
+	schema   func(t *rapid.T) *schema
+	file     func(t *rapid.T, sc *schema, fileNo int) *fileSpec
+	maxFiles int
+	sizes    []uint32 // MaxFileSize choices
+}
+
+var smallCases = caseGen{
+	group: "TestCompactionKeepsObservations", schema: genSchema, file: genFile, maxFiles: 6,
+	// 0 = production default (256 MiB); tiny values split the compaction output over several files
+	sizes: []uint32{0, 1, 150, 400, 1 << 20},
+}
+
+func runCase(t *rapid.T) { runCaseWith(t, smallCases) }
+
+func runCaseWith(t *rapid.T, gen caseGen) {
 	dir, err := os.MkdirTemp("", "c03-")
 	if err != nil {
 		t.Fatalf("harness: %v", err)
@@ -469,21 +500,20 @@ func runCase(t *rapid.T) {
 		}
 		_ = os.RemoveAll(dir)
 	}()
-	e.sc = genSchema(t)
+	e.sc = gen.schema(t)
 	e.famOpt = kv.FamilyOption{
 		Merger:           string(metricsdata.MetricDataMerger),
 		CompactThreshold: rapid.SampledFrom([]int{0, 0, 1, 2}).Draw(t, "compactThreshold"),
-		// 0 = production default (256 MiB); tiny values split the compaction output over several files
-		MaxFileSize: rapid.SampledFrom([]uint32{0, 1, 150, 400, 1 << 20}).Draw(t, "maxFileSize"),
+		MaxFileSize:      rapid.SampledFrom(gen.sizes).Draw(t, "maxFileSize"),
 	}
 	e.open()
 
-	nFiles := rapid.IntRange(2, 6).Draw(t, "nFiles")
+	nFiles := rapid.IntRange(2, gen.maxFiles).Draw(t, "nFiles")
 	var canon strings.Builder
 	fmt.Fprintf(&canon, "opt=%d/%d;", e.famOpt.CompactThreshold, e.famOpt.MaxFileSize)
 	fieldSets := map[uint32]map[string]bool{}
 	for i := 0; i < nFiles; i++ {
-		f := genFile(t, e.sc, i)
+		f := gen.file(t, e.sc, i)
 		for _, m := range f.Metrics {
 			ids := make([]int, 0, len(m.Fields))
 			for _, fd := range m.Fields {
@@ -530,9 +560,135 @@ func runCase(t *rapid.T) {
 		classes = append(classes, c)
 	}
 	sort.Strings(classes)
-	ev.Case("TestCompactionKeepsObservations", canon.String(), e.nonTriv, classes, map[string]any{
+	ev.Case(gen.group, canon.String(), e.nonTriv, classes, map[string]any{
 		"familyOption": fmt.Sprintf("%+v", e.famOpt), "history": e.history, "nonTrivial": e.nonTriv,
 	})
+}
+
+// ---- dense series sets -----------------------------------------------------------------------
+
+// Dense cases: one or two metrics whose series ids form long runs, so the roaring containers of
+// the series bitmaps are bitmap containers (> 4096 ids) or full containers, blocks exceed 64 KiB
+// (3-byte offsets) and more than 65536 series cross a container boundary the way a real shard
+// fills up. Files take every id, every second id or a sub-range, so that the merge meets series
+// present in one, the other or both inputs.
+func genSchemaDense(t *rapid.T) *schema {
+	s := &schema{Fields: map[uint32][]fieldDef{}, Series: map[uint32][]uint32{}, hot: map[uint32][2]int{}}
+	s.Metrics = subset(t, "metrics", []uint32{1, 2}, 1, 2)
+	for _, m := range s.Metrics {
+		lbl := fmt.Sprintf("m%d", m)
+		for _, id := range subset(t, lbl+"fieldIDs", []field.ID{0, 1, 2}, 1, 2) {
+			s.Fields[m] = append(s.Fields[m], fieldDef{ID: id, Type: rapid.SampledFrom(fieldTypes).Draw(t, lbl+"type")})
+		}
+		n := rapid.SampledFrom([]int{4095, 4096, 4097, 5000, 9000, 65536, 65537, 70000}).Draw(t, lbl+"seriesN")
+		base := rapid.SampledFrom([]uint32{0, 61000}).Draw(t, lbl+"seriesBase")
+		ids := make([]uint32, n)
+		for i := range ids {
+			ids[i] = base + uint32(i)
+		}
+		s.Series[m] = ids
+	}
+	return s
+}
+
+func genFileDense(t *rapid.T, sc *schema, fileNo int) *fileSpec {
+	f := &fileSpec{}
+	var label strings.Builder
+	for _, m := range subset(t, fmt.Sprintf("f%dmetrics", fileNo), sc.Metrics, 1, len(sc.Metrics)) {
+		lbl := fmt.Sprintf("f%dm%d", fileNo, m)
+		fm := &fileMetric{ID: m, Data: map[uint32]map[field.ID]map[uint16]float64{}}
+		fm.Fields = subset(t, lbl+"fields", sc.Fields[m], 1, 2)
+		if len(fm.Fields) > 1 && rapid.Bool().Draw(t, lbl+"swap") {
+			fm.Fields[0], fm.Fields[1] = fm.Fields[1], fm.Fields[0]
+		}
+		all := sc.Series[m]
+		stride := rapid.SampledFrom([]int{1, 1, 2, 3}).Draw(t, lbl+"stride")
+		offset := rapid.IntRange(0, stride-1).Draw(t, lbl+"offset")
+		from := rapid.SampledFrom([]int{0, 0, 1, len(all) / 2}).Draw(t, lbl+"from")
+		to := rapid.SampledFrom([]int{len(all), len(all), len(all) - 1, len(all)/2 + 1}).Draw(t, lbl+"to")
+		if to <= from {
+			from, to = 0, len(all)
+		}
+		start := rapid.IntRange(0, 3).Draw(t, lbl+"start")
+		width := rapid.IntRange(1, 3).Draw(t, lbl+"width")
+		seed := rapid.IntRange(0, 60).Draw(t, lbl+"seed")
+		declareAll := rapid.Bool().Draw(t, lbl+"declareAll") // series of the shard index without data in this file
+		for i := from; i < to; i++ {
+			sid := all[i]
+			hasData := (i-from)%stride == offset
+			if !hasData && !declareAll {
+				continue
+			}
+			fm.Series = append(fm.Series, sid)
+			if !hasData {
+				continue
+			}
+			byField := map[field.ID]map[uint16]float64{}
+			for fi, fd := range fm.Fields {
+				if fi == 1 && sid%5 == 0 {
+					continue // second field absent for some series
+				}
+				bySlot := map[uint16]float64{}
+				for w := 0; w < width; w++ {
+					if (int(sid)+w)%4 == 3 {
+						continue // sparse
+					}
+					sl := uint16(start + w)
+					bySlot[sl] = valueAt(fd.Type, seed+int(sid%3), sl)
+				}
+				if len(bySlot) > 0 {
+					byField[fd.ID] = bySlot
+				}
+			}
+			if len(byField) > 0 {
+				fm.Data[sid] = byField
+			}
+		}
+		if fm.numPoints() == 0 {
+			continue
+		}
+		if len(fm.Fields) == 1 && ev.Known(SigEmptyBucket) {
+			withData := map[uint32]bool{}
+			for sid := range fm.Data {
+				withData[sid>>16] = true
+			}
+			kept := fm.Series[:0]
+			for _, sid := range fm.Series {
+				if withData[sid>>16] {
+					kept = append(kept, sid)
+				}
+			}
+			fm.Series = kept
+		}
+		fmt.Fprintf(&label, "m%d[fields %v series %d..%d(%d declared, %d with data) stride %d/%d slots %d+%d seed %d] ",
+			m, fm.Fields, all[from], all[to-1], len(fm.Series), len(fm.Data), stride, offset, start, width, seed)
+		f.Metrics = append(f.Metrics, fm)
+	}
+	if len(f.Metrics) == 0 {
+		// every drawn metric came out empty (sparse rule): fall back to one dense point set
+		m := sc.Metrics[0]
+		fd := sc.Fields[m][0]
+		fm := &fileMetric{ID: m, Fields: []fieldDef{fd}, Data: map[uint32]map[field.ID]map[uint16]float64{}}
+		for _, sid := range sc.Series[m] {
+			fm.Series = append(fm.Series, sid)
+			fm.Data[sid] = map[field.ID]map[uint16]float64{fd.ID: {0: valueAt(fd.Type, 1, 0)}}
+		}
+		fmt.Fprintf(&label, "m%d[fallback: field %v all %d series slot 0] ", m, fd, len(fm.Series))
+		f.Metrics = append(f.Metrics, fm)
+	}
+	f.Label = label.String()
+	return f
+}
+
+var denseCases = caseGen{
+	group: "TestCompactionDenseSeries", schema: genSchemaDense, file: genFileDense, maxFiles: 3,
+	sizes: []uint32{0, 1, 1 << 18},
+}
+
+// TestCompactionDenseSeries is the same property over long runs of series ids (bitmap / full
+// roaring containers, > 65536 series, blocks larger than 64 KiB).
+func TestCompactionDenseSeries(t *testing.T) {
+	rapid.Check(t, func(t *rapid.T) { runCaseWith(t, denseCases) })
 }
 
 // TestCompactionKeepsObservations is the property: after every flush the reader shows exactly
